@@ -9,8 +9,8 @@ UNIT = {
                   {'file': 'riscv_analysis/src/lints/garbage_input_value.rs', 'item': 'impl LintPass for GarbageInputValueCheck :: fn run'}],
     'obligations': [
         {'id': 'symm_n.twins', 'recipe': ['symm-search'], 'props': ['C14'], 'kind': 'bounded', 'timeout': 900,
-         'bound': '1632 program/renaming pairs: 17 programs (clean and violating: lost / overwritten saved registers, reads of unset saved registers, dead and '
-                  'unset temporaries, temporaries across calls, fp and x-number spellings, two clobbered temporaries read by one instruction, a function with two labels called through each, every saved register and every temporary mentioned at least once) x '
+         'bound': '2208 program/renaming pairs: 23 programs (clean and violating: lost / overwritten saved registers, reads of unset saved registers, dead and '
+                  'unset temporaries, temporaries across calls, fp and x-number spellings, two clobbered temporaries read by one instruction, a frame addressed through the frame pointer, garbage only in low registers at program entry, two labels each defined twice, linking through a temporary, loads and stores by label, a function with two labels called through each, every saved register and every temporary mentioned at least once) x '
                   'every transposition and two longer permutations of t0-t6 and of s0-s11 (ABI names and x numbers renamed together), x five injective renamings of all labels (suffix, numbered, upper case, register-like names in another letter case, reversed alphabetical order)',
          'clause': 'the twin program gets exactly the diagnostics of the original: same title, same line, same first and last operand token, description equal '
                    'up to the renaming',
